@@ -41,6 +41,7 @@ type loopInfo struct {
 }
 
 type Exec struct {
+	invVals      []invVal
 	captured     map[string]Val
 	callOrd      map[string]int
 	replayAssume []string
@@ -94,7 +95,7 @@ func (ex *Exec) assumeHere(f string) {
 		return
 	}
 	r := ex.reach[ex.curBlock]
-	if r == "true" {
+	if r == "true" || r == "" {
 		ex.e.assume(f)
 	} else {
 		ex.e.assume(fmt.Sprintf("(=> %s %s)", r, f))
@@ -160,9 +161,48 @@ func (ex *Exec) paramVal(name string, t types.Type) Val {
 	return v
 }
 
+func (ex *Exec) relyInvOnly(v Val, t types.Type) {
+	if v.T != "" && v.Loc == nil && v.Tup == nil {
+		if inv := ex.g.typeInv[typeKey(t)]; inv != nil {
+			ex.invVals = append(ex.invVals, invVal{v, inv})
+			ex.assumeInv(v, inv)
+		}
+	}
+}
+
+type invVal struct {
+	v   Val
+	inv *ssa.Function
+}
+
+// assumeInv assumes a heap-dependent type invariant of v in the current state.
+func (ex *Exec) assumeInv(v Val, inv *ssa.Function) {
+	saved := ex.env.side
+	ex.env.side = nil
+	r := ex.env.evalPure(inv, []Val{v}, nil, ex.st, ex.entry, 1)
+	side := ex.env.side
+	ex.env.side = saved
+	for _, f := range side {
+		ex.e.assume(f)
+	}
+	for _, er := range ex.env.errs {
+		ex.unsup("type invariant %s: %s", inv.Name(), er)
+	}
+	ex.env.errs = nil
+	if r.T != "" {
+		ex.assumeHere(r.T)
+	}
+}
+
 // rely: values that already exist satisfy the creation invariant of their type (the induction
 // hypothesis of the global invariant whose other half is the create obligations).
 func (ex *Exec) rely(v Val, t types.Type) {
+	if v.T != "" && v.Loc == nil && v.Tup == nil {
+		if inv := ex.g.typeInv[typeKey(t)]; inv != nil {
+			ex.invVals = append(ex.invVals, invVal{v, inv})
+			ex.assumeInv(v, inv)
+		}
+	}
 	if len(ex.g.createInv) == 0 || v.T == "" || v.Loc != nil {
 		return
 	}
@@ -289,6 +329,15 @@ func (ex *Exec) jsEffect(st *State) *State {
 	oldAlloc := st.get("alloc")
 	n := st.havocAll(ex.keepStable(esc))
 	n.heap["jsfx"] = "true"
+	if len(ex.invVals) > 0 && ex.curBlock != nil {
+		// unknown code preserves the type invariants of the objects we hold
+		savedSt := ex.st
+		ex.st = n
+		for _, iv := range ex.invVals {
+			ex.assumeInv(iv.v, iv.inv)
+		}
+		ex.st = savedSt
+	}
 	ex.e.assume(fmt.Sprintf("(forall ((r Ref)) (! (=> (select %s r) (select %s r)) :pattern ((select %s r))))", oldAlloc, n.get("alloc"), n.get("alloc")))
 	return n
 }
@@ -1136,6 +1185,14 @@ func (ex *Exec) postChecks(in ssa.Instruction, r Val) {
 		ex.rely(r, in.Type())
 	case *ssa.Field:
 		ex.rely(r, in.Type())
+	case *ssa.TypeAssert:
+		if !in.CommaOk {
+			ex.relyInvOnly(r, in.Type())
+		}
+	case *ssa.Extract:
+		if _, ok := in.Tuple.(*ssa.TypeAssert); ok && in.Index == 0 {
+			ex.relyInvOnly(r, in.Type())
+		}
 	}
 	// loaded references are allocated objects (well-formed heap)
 	if u, ok := in.(*ssa.UnOp); ok && u.Op == token.MUL && r.S == "Ref" && r.T != "" {
